@@ -50,6 +50,9 @@ Clauses(t) ==
      <<"further-numeric-fields", BadMore(t) = {}>>,
      <<"further-name-records", BadNames(t) = {}>>,
      <<"name-1-2-4", NameOK(t, 1) /\ NameOK(t, 2) /\ NameOK(t, 4)>>,
+     \* explicit openTypeNameRecords (other languages / platforms, same name IDs) are stored as given, next to the built ones
+     <<"explicit-name-records-kept", Has(t, "expNameRecs") =>
+           \A k \in 1..Len(t.expNameRecs) : \E j \in 1..Len(t.ret.nameRecs) : t.ret.nameRecs[j] = t.expNameRecs[k]>>,
      <<"typographic-names", IF HasTypographicNames(P(t), StrV(t)) THEN NameOK(t, 16) /\ NameOK(t, 17)
                             ELSE ~Has(t.ret.names, "16") /\ ~Has(t.ret.names, "17")>>,
      <<"postscript-name-legal", ("postscriptFontName" \notin P(t)) => (Has(t.ret.names, "6") /\ PsLegal(t.ret.names["6"]))>>,
